@@ -1056,3 +1056,173 @@ def rule_ownership_handover(ctx):
     ctx.floor(RULE, 4, n, "ownership hand-overs of an owned member")
     return {"owned_members": len(owned), "conditionally_owned": sorted("%s::%s" % (F.short(c), f) for c, f in conditional),
             "adopting_functions": len(adopt)}
+
+
+# =========================================================================== P5 no use after giving up
+
+P5_CLASSES = {
+    "GNU_gama::local::LocalNetwork": "the network object lives on after the adjustment and serves --obs, the project-equation accessors and re-adjustments",
+    "GNU_gama::g3::Model": "the model is linearised again in iterations",
+}
+
+
+def _is_null(n):
+    n = _strip_casts(n)
+    if n is None:
+        return False
+    if n.get("k") in ("CXXNullPtrLiteralExpr", "GNUNullExpr"):
+        return True
+    return n.get("k") == "IntegerLiteral" and int(n.get("v", 1)) == 0
+
+
+def _field_derefs(fn, field):
+    """nodes that dereference this-><field>: f->m, f->m(), *f, f[i]"""
+    out = []
+    for n in fn.walk():
+        k = n.get("k")
+        c = n.get("c") or []
+        if k == "MemberExpr" and n.get("arrow") and c and F.is_this_field(_strip_casts(c[0]), field):
+            out.append(n)
+        elif k == "UnaryOperator" and n.get("op") == "*" and c and F.is_this_field(_strip_casts(c[0]), field):
+            out.append(n)
+        elif k == "ArraySubscriptExpr" and c and F.is_this_field(_strip_casts(c[0]), field):
+            out.append(n)
+    return out
+
+
+def rule_no_use_after_handover(ctx):
+    """P5: a member that a method gives up (`Asp = nullptr` after `input.set_mat(Asp)`) is null from then on.
+    Every dereference of such a member, in any method of the class, must be preceded on every path by a fresh
+    assignment (or a null test) that no later give-up - directly or inside a member called on `this` - can undo.
+    Methods that are only called back by a visitor object are checked at the place where that visitor is built."""
+    fx = ctx.facts
+    n_inst = 0
+    details = {}
+    for cls, why in sorted(P5_CLASSES.items()):
+        fx.cls(cls)
+        methods = [m for m in fx.methods_of(cls) if m.body is not None]
+        bykey = {m.key: m for m in methods}
+        # members given up somewhere outside constructors / destructors
+        given = {}
+        for m in methods:
+            if m.rec.get("ctor") or m.rec.get("dtor"):
+                continue
+            for n in m.walk():
+                if n.get("k") == "BinaryOperator" and n.get("op") == "=" and F.is_this_field(n["c"][0]) and _is_null(n["c"][1]) \
+                        and "*" in (n["c"][0].get("t") or ""):
+                    given.setdefault(n["c"][0]["member"], []).append((m, n))
+        for field, gives in sorted(given.items()):
+            # does a method (transitively, through calls on this) possibly leave the member null at its exit?
+            may_null = {}
+
+            def leaves_null(m, stack=()):
+                if m.key in may_null:
+                    return may_null[m.key]
+                if m.key in stack:
+                    return False
+                res = False
+                fresh = [w for w in m.walk() if w.get("k") == "BinaryOperator" and w.get("op") == "=" and
+                         F.is_this_field(w["c"][0], field) and not _is_null(w["c"][1])]
+                killers = [g for mm, g in gives if mm.key == m.key]
+                for c in m.calls():
+                    callee = bykey.get(c.get("calleeKey") or "")
+                    obj = F.call_object(c) if c.get("k") == "CXXMemberCallExpr" else None
+                    if callee is not None and callee.key != m.key and (obj is None or obj.get("k") == "CXXThisExpr") \
+                            and leaves_null(callee, stack + (m.key,)):
+                        killers.append(c)
+                for g in killers:
+                    if not any(m.cfg.postdominates(w, g) for w in fresh):
+                        res = True
+                may_null[m.key] = res
+                return res
+
+            def site_safe(m, d):
+                """a fresh assignment / null test dominates d and nothing that may null the member lies between"""
+                cfg = m.cfg
+                est = [w for w in m.walk() if w.get("k") == "BinaryOperator" and w.get("op") == "=" and
+                       F.is_this_field(w["c"][0], field) and not _is_null(w["c"][1]) and cfg.dominates(w, d)]
+                # null tests: d inside the then-branch of `if (f)` / `if (f != nullptr)`
+                for anc in m.ancestors(d):
+                    if anc.get("k") in ("IfStmt", "ConditionalOperator"):
+                        cond = anc.get("cond") if anc.get("k") == "IfStmt" else (anc.get("c") or [None])[0]
+                        then = anc.get("then") if anc.get("k") == "IfStmt" else (anc.get("c") or [None, None])[1]
+                        cc = _strip_casts(cond)
+                        tested = cc is not None and (F.is_this_field(cc, field) or (
+                            cc.get("k") == "BinaryOperator" and cc.get("op") == "!=" and
+                            any(F.is_this_field(_strip_casts(x), field) for x in cc["c"]) and any(_is_null(x) for x in cc["c"])))
+                        if tested and isinstance(then, dict) and any(x.get("id") == d.get("id") for x in F.walk(then)):
+                            return True
+                if not est:
+                    return False
+                killers = [g for mm, g in gives if mm.key == m.key]
+                for c in m.calls():
+                    callee = bykey.get(c.get("calleeKey") or "")
+                    obj = F.call_object(c) if c.get("k") == "CXXMemberCallExpr" else None
+                    if callee is not None and callee.key != m.key and (obj is None or obj.get("k") == "CXXThisExpr") and leaves_null(callee):
+                        killers.append(c)
+                db = cfg.block_of(d)
+                for e in est:
+                    undone = False
+                    for g in killers:
+                        gb = cfg.block_of(g)
+                        if gb is None or db is None:
+                            continue
+                        reaches = (gb[0] != db[0] and db[0] in cfg.reachable_blocks_from(gb[0])) or (gb[0] == db[0] and gb[1] < db[1])
+                        if cfg.dominates(e, g) and reaches:
+                            undone = True
+                    if not undone:
+                        return True
+                return False
+
+            for m in sorted(methods, key=lambda f: f.key):
+                if m.rec.get("dtor"):
+                    continue
+                ds = _field_derefs(m, field)
+                if not ds:
+                    continue
+                ctx.saw(m)
+                unsafe = [d for d in ds if not site_safe(m, d)]
+                ok = not unsafe
+                how = "local"
+                if unsafe:
+                    # visitor callback? every call site of m lies in a class V whose objects are built only inside
+                    # methods of this class, at a point where the member is established and not given up while the
+                    # visitor is in use
+                    callers = [(g, c) for g in fx.functions.values() if g.body is not None
+                               for c in g.calls() if c.get("calleeKey") == m.key]
+                    vclasses = {strip_targs(g.cls) for g, c in callers if g.cls and strip_targs(g.cls) != cls}
+                    inner = [(g, c) for g, c in callers if g.cls and strip_targs(g.cls) == cls]
+                    if callers and all(site_safe(g, c) for g, c in inner) and (vclasses or inner):
+                        good = True
+                        for V in vclasses:
+                            built = []
+                            vfiles = {g.file for g, c in callers if g.cls and strip_targs(g.cls) == V}
+                            anonymous = "(anonymous namespace)" in V
+                            for g in fx.functions.values():
+                                if g.body is None:
+                                    continue
+                                for x in g.walk():
+                                    if x.get("k") == "DeclStmt":
+                                        for dcl in x.get("decls", []) or []:
+                                            t = strip_targs((dcl.get("t") or "").replace("class ", "").replace("const ", "").strip())
+                                            same = (t == V) or (anonymous and t.split("::")[-1] == V.split("::")[-1] and g.file in vfiles)
+                                            if same:
+                                                built.append((g, x))
+                            if not built:
+                                good = False
+                            for g, x in built:
+                                if not (g.cls and strip_targs(g.cls) == cls and site_safe(g, x)):
+                                    good = False
+                        if good:
+                            ok = True
+                            how = "visitor callback, checked where the visitor is built"
+                n_inst += 1
+                ctx.report(RULE, "P5:%s:%s" % (m.sig, field), ok, m.where(unsafe[0]) if unsafe else m.where(), m.short,
+                           "" if ok else "`%s` is dereferenced here, but %s gives the pointer up (`%s = nullptr` after handing the object "
+                           "over) and nothing on the way re-establishes it: a null pointer dereference after %s" % (
+                               field, ", ".join(sorted({F.short(mm.qn) for mm, g in gives})), field,
+                               ", ".join(sorted({F.short(mm.qn) for mm, g in gives}))),
+                           {"derefs": len(ds), "how": how})
+            details["%s::%s" % (F.short(cls), field)] = {"given_up_in": sorted({F.short(mm.qn) for mm, g in gives})}
+    ctx.floor(RULE, 3, n_inst, "methods dereferencing a member that is given up elsewhere")
+    return {"given_up_members": details}
